@@ -379,7 +379,7 @@ def check_entry(entry):
             except Exception:
                 ok = True  # an exception for real-typed input is not a wrong answer
             if not ok:
-                out.append(_viol(["C02"], "real_input_wrong", api, "float64 input: result differs from the matrix action (imaginary part dropped or mixed)"))
+                out.append(_viol(["C02", "C03"], "real_input_wrong", api, "float64 input: result differs from the matrix action (imaginary part dropped or mixed)"))
             if not np.array_equal(xr, xr0):
                 out.append(_viol(["C02"], "mutated", api, "real input mutated"))
         except Exception as e:
